@@ -205,15 +205,17 @@ impl Display for DocumentMut {
         decor.prefix_encode(f, None, DEFAULT_ROOT_DECOR.0)?;
 
         let mut path = Vec::new();
-        let mut last_position = 0;
         let mut tables = Vec::new();
-        visit_nested_tables(self.as_table(), &mut path, false, &mut |t, p, is_array| {
-            if let Some(pos) = t.position() {
-                last_position = pos;
-            }
-            tables.push((last_position, t, p.clone(), is_array));
-            Ok(())
-        })
+        visit_nested_tables(
+            self.as_table(),
+            &mut path,
+            false,
+            0,
+            &mut |position, t, p, is_array| {
+                tables.push((position, t, p.clone(), is_array));
+                Ok(())
+            },
+        )
         .unwrap();
 
         tables.sort_by_key(|&(id, _, _, _)| id);
@@ -226,17 +228,28 @@ impl Display for DocumentMut {
     }
 }
 
+/// Visits `table` and the tables nested in it, passing each the position it is printed at.
+///
+/// A table without a position of its own (one that was added through the API) goes right after
+/// its parent and everything nested in its preceding siblings, so that it can never be printed in
+/// front of tables that belong to an earlier element of an array of tables.
+///
+/// Returns the last position used within `table`.
 fn visit_nested_tables<'t, F>(
     table: &'t Table,
     path: &mut Vec<Key>,
     is_array_of_tables: bool,
+    inherited_position: usize,
     callback: &mut F,
-) -> Result
+) -> std::result::Result<usize, std::fmt::Error>
 where
-    F: FnMut(&'t Table, &Vec<Key>, bool) -> Result,
+    F: FnMut(usize, &'t Table, &Vec<Key>, bool) -> Result,
 {
+    let mut last_position = inherited_position;
     if !table.is_dotted() {
-        callback(table, path, is_array_of_tables)?;
+        let position = table.position().unwrap_or(inherited_position);
+        callback(position, table, path, is_array_of_tables)?;
+        last_position = position;
     }
 
     for (key, value) in table.items.iter() {
@@ -244,21 +257,23 @@ where
             Item::Table(ref t) => {
                 let key = key.clone();
                 path.push(key);
-                visit_nested_tables(t, path, false, callback)?;
+                let nested = visit_nested_tables(t, path, false, last_position, callback)?;
+                last_position = last_position.max(nested);
                 path.pop();
             }
             Item::ArrayOfTables(ref a) => {
                 for t in a.iter() {
                     let key = key.clone();
                     path.push(key);
-                    visit_nested_tables(t, path, true, callback)?;
+                    let nested = visit_nested_tables(t, path, true, last_position, callback)?;
+                    last_position = last_position.max(nested);
                     path.pop();
                 }
             }
             _ => {}
         }
     }
-    Ok(())
+    Ok(last_position)
 }
 
 fn visit_table(
